@@ -48,6 +48,8 @@ type world struct {
 	fake  *block.Block
 	group map[string][]string // contract name -> compressed group keys
 	mfst  map[string][]byte   // extension "facts": manifests with replaced groups
+	// round 6 (ext_mirror_test.go): why the contract carrying a key AND its mirror key could not be deployed ("" = deployed)
+	noF string
 }
 
 func newWorld() (*world, error) {
@@ -62,6 +64,15 @@ func newWorld() (*world, error) {
 		k := chainx.Acc(groupBase + i).PrivateKey()
 		gk = append(gk, k)
 		w.base.K[fmt.Sprintf("G%d", i+1)] = k.PublicKey()
+	}
+	// round 6: M<i> = the mirror key of G<i> (same X, opposite Y), gk[3..5]
+	for i := 0; i < 3; i++ {
+		k, err := mirrorPriv(gk[i])
+		if err != nil {
+			return nil, err
+		}
+		gk = append(gk, k)
+		w.base.K[fmt.Sprintf("M%d", i+1)] = k.PublicKey()
 	}
 	sender := n.Validator.ScriptHash()
 	for _, d := range []struct {
@@ -136,6 +147,9 @@ func newWorld() (*world, error) {
 		}
 		w.U[d.name] = c
 		w.base.H[d.name] = c.Hash
+	}
+	if err := w.deployMirrorContracts(gk, sender); err != nil {
+		return nil, err
 	}
 	w.base.H["GAS"] = nativehashes.GasToken
 	w.base.H["Z"] = util.Uint160{}
@@ -229,7 +243,9 @@ func (c chain) possible() bool {
 	return true
 }
 
-func isUKind(k string) bool { return k == "A" || k == "B" || k == "C" || k == "V" || k == "W" }
+func isUKind(k string) bool {
+	return k == "A" || k == "B" || k == "C" || k == "V" || k == "W" || k == "D" || k == "F"
+}
 
 var stepAlphabet = []string{"A", "B", "C", "L", "GA", "GB", "GC"}
 
@@ -341,6 +357,9 @@ func (bl *builder) queries(i int) (pre, post []query) {
 	// and it is nobody's calling CONTRACT, so it is never witnessed
 	pre = append(pre, query{Label: "zero:hash", Val: make([]byte, util.Uint160Size), Ref: -1, Acc: util.Uint160{}})
 	post = append(post, query{Label: "nonsigner:key", Val: keyBytes(nonSigner), Ref: -1, Acc: ns})
+	// round 6: the mirror key of signer 0's key is another key, hence another account that did not sign
+	mk := mirrorPub(chainx.Acc(slotBase).PublicKey())
+	post = append(post, query{Label: "mirror-of-s0-key", Val: mk.Bytes(), Ref: -1, Acc: mk.GetScriptHash()})
 	// hashes of the scripts of the chain: the calling one, the current one, the entry
 	if i > 0 {
 		c := bl.b.Frames[i-1]
@@ -354,6 +373,11 @@ func (bl *builder) queries(i int) (pre, post []query) {
 			q.Val = dyn("self") // evaluated by the calling script while it builds the program
 		}
 		pre = append(pre, q)
+		if c.isU() || c.Kind == "G" {
+			// round 6: the calling contract's hash read in the other byte order is nobody's calling contract
+			rh := reversedHash(c.Hash)
+			pre = append(pre, query{Label: "caller-reversed", Val: rh.BytesBE(), Ref: -1, Acc: rh})
+		}
 	}
 	if f.isU() {
 		pre = append(pre, query{Label: "self", Val: f.Hash.BytesBE(), Ref: i})
@@ -669,6 +693,7 @@ func (w *world) build(c chain) (*built, error) {
 			break
 		}
 	}
+	addReversedTwins(b.N.H)
 	for i := range b.Expect {
 		e := &b.Expect[i]
 		if e.Q.Ref >= 0 {
